@@ -147,6 +147,9 @@ def _l2_traces(ctx, prop, histories=None):
                 h += [('Cycle', []), ('Cycle', []),
                       ('Probe', [free[0], rng.randrange(len(scn2['aprofiles'])) + 1])]
                 histories.append(h)
+        if prop in ('C01', 'C03', 'C04', 'C08'):
+            histories += [mcm.gen_servers(mcm.SCENARIOS['base'], rng, rng.choice([5, 8, 12]))
+                          for _ in range(n // 2)]
         if prop == 'C05':
             histories += [mcm.gen_identity(mcm.SCENARIOS['base'], rng, rng.choice([4, 6, 9]))
                           for _ in range(n // 2)]
